@@ -1,6 +1,38 @@
--- shard 26 of the closeness / tick-gap sweep (C06 (c), (e)): |tick| in [851968, 884736)
+-- shard 26 of the closeness / tick-gap sweep (C06 (c), (e)): |tick| in [851968, 884736), 16 blocks of 2^11
 import Proofs.Lemmas.ClosePred
 namespace Demeter.TickClose
 set_option maxRecDepth 100000 in
-theorem close_shard_26 : chkN closeSweepPred 851968 shardBits = true := by decide +kernel
+theorem close_blk_851968 : chkN closeSweepPred 851968 11 = true := by decide +kernel
+set_option maxRecDepth 100000 in
+theorem close_blk_854016 : chkN closeSweepPred 854016 11 = true := by decide +kernel
+set_option maxRecDepth 100000 in
+theorem close_blk_856064 : chkN closeSweepPred 856064 11 = true := by decide +kernel
+set_option maxRecDepth 100000 in
+theorem close_blk_858112 : chkN closeSweepPred 858112 11 = true := by decide +kernel
+set_option maxRecDepth 100000 in
+theorem close_blk_860160 : chkN closeSweepPred 860160 11 = true := by decide +kernel
+set_option maxRecDepth 100000 in
+theorem close_blk_862208 : chkN closeSweepPred 862208 11 = true := by decide +kernel
+set_option maxRecDepth 100000 in
+theorem close_blk_864256 : chkN closeSweepPred 864256 11 = true := by decide +kernel
+set_option maxRecDepth 100000 in
+theorem close_blk_866304 : chkN closeSweepPred 866304 11 = true := by decide +kernel
+set_option maxRecDepth 100000 in
+theorem close_blk_868352 : chkN closeSweepPred 868352 11 = true := by decide +kernel
+set_option maxRecDepth 100000 in
+theorem close_blk_870400 : chkN closeSweepPred 870400 11 = true := by decide +kernel
+set_option maxRecDepth 100000 in
+theorem close_blk_872448 : chkN closeSweepPred 872448 11 = true := by decide +kernel
+set_option maxRecDepth 100000 in
+theorem close_blk_874496 : chkN closeSweepPred 874496 11 = true := by decide +kernel
+set_option maxRecDepth 100000 in
+theorem close_blk_876544 : chkN closeSweepPred 876544 11 = true := by decide +kernel
+set_option maxRecDepth 100000 in
+theorem close_blk_878592 : chkN closeSweepPred 878592 11 = true := by decide +kernel
+set_option maxRecDepth 100000 in
+theorem close_blk_880640 : chkN closeSweepPred 880640 11 = true := by decide +kernel
+set_option maxRecDepth 100000 in
+theorem close_blk_882688 : chkN closeSweepPred 882688 11 = true := by decide +kernel
+theorem close_shard_26 : chkN closeSweepPred 851968 shardBits = true :=
+  (chkN_join _ 851968 14 (chkN_join _ 851968 13 (chkN_join _ 851968 12 (chkN_join _ 851968 11 close_blk_851968 close_blk_854016) (chkN_join _ 856064 11 close_blk_856064 close_blk_858112)) (chkN_join _ 860160 12 (chkN_join _ 860160 11 close_blk_860160 close_blk_862208) (chkN_join _ 864256 11 close_blk_864256 close_blk_866304))) (chkN_join _ 868352 13 (chkN_join _ 868352 12 (chkN_join _ 868352 11 close_blk_868352 close_blk_870400) (chkN_join _ 872448 11 close_blk_872448 close_blk_874496)) (chkN_join _ 876544 12 (chkN_join _ 876544 11 close_blk_876544 close_blk_878592) (chkN_join _ 880640 11 close_blk_880640 close_blk_882688))))
 end Demeter.TickClose
